@@ -21,6 +21,8 @@ ASSUMPTIONS = [
     '"re-match deeper" rule of _item_by_i/_item_by_key then cannot fire by accident and plain broadcasting is the only reading',
     'same-shape companions mirror the structure to depth k and are scalars below (or are the operand object itself); no companion is named "axis" (a keyword the decorator consumes)',
     'lifted functions are pure and of the shapes f(x, a=, b=), f(y, a=, b=), f(x, *, a=, b=), f(x, *rest), f(x, **kw), f(*a, **kw); a function without a named first parameter receives the structure positionally (there is no name to pass it by)',
+    'a lifted function may carry __wrapped__ (the outer function of a functools.wraps decorator; the inner function takes a leading argument more, or names its first parameter differently): the signature that python binds a call to is the outer one, '
+    'so the structure is passed by the OUTER name of the first parameter and the companions by the outer names a / b; the result is judged by the same leaf-wise model as for a plain function',
     'a lifted functools.partial(f(x, a=, b=), b=value): the bound value belongs to the function, it is not a "further argument" of the call - every leaf receives it whole (also a list as long as the data) unless the caller passes b, which python allows by keyword only',
     'a declared default that the caller passes explicitly IS a further argument (a container default is then matched element by element / by key where it fits); scalar companions and elements of flat companions may be falsy (0, "", False, 0.0, None)',
     'library functions with optional arguments left out (replace without new, split without dedup / without sep and dedup) are judged by the documented defaults new=None, sep=" ", dedup=False',
@@ -30,6 +32,8 @@ ASSUMPTIONS = [
     'zipper arguments: scalars, strings (scalars to zipper), lists / tuples / ranges / 1-d numpy arrays; no dicts/sets; lens is called when every argument is a sequence',
     'waiter: awaitables are asyncio futures (possibly the same future object at several places)  or coroutines awaiting one; the harness resolves futures in the generated order with sleep(0) between; '
     'a second waiter call on the same structure is made only when it holds no coroutine objects (python forbids awaiting those twice)',
+    'waiter, enforced orders: "whatever order the awaitables complete in" includes orders that the awaitables impose themselves - coroutine objects (run by nobody but waiter) each waiting for an event that the completion of its predecessor '
+    'in the order sets; nothing depends on time, so "waiter does not return" is decided by a bounded number of event-loop turns (2000; a concurrent waiter needs < 100 for 6 awaitables at depth 5)',
     'sessions (several calls on the same objects) judge every call by the ORIGINAL content of the operands: the statement maps "the original leaves", a callee that edits its arguments breaks the later calls; '
     'between two calls the harness itself may write ONE leaf cell of a list / dict of the operand (or of a flat list / dict companion) in place - shapes unchanged - and the later calls are judged by that current content (an answer remembered per object would be stale); not done where one container object sits at two places',
 ]
@@ -282,51 +286,161 @@ def _lift_case(draw):
     if shape == 'partial' and draw(st.sampled_from([True, True, True, False])):
         # ... and for the partial mostly the set whose bound value is as long as a list / tuple of the structure, where there is one
         defaults = 'containers' if len(_PARTIAL_BOUND['containers']) in lens else 'containers2' if len(_PARTIAL_BOUND['containers2']) in lens else defaults
+    # in a quarter of the cases the function went through a functools.wraps decorator and carries __wrapped__, a function of ANOTHER signature; these are called with the
+    # structure passed by keyword more often (where the shape has a name for it)
+    wrap = draw(st.sampled_from(_WRAPS))
+    if wrap and draw(st.sampled_from([True, False, False])):
+        first_kw = True
     hows, first_kw = _fix_hows(shape, [c['how'] for c in comps], first_kw)
     for c, h in zip(comps, hows):
         c['how'] = h
-    return dict(s=s, comps=comps, first_kw=first_kw, defaults=defaults, shape=shape, share=which == 'shared')
+    return dict(s=s, comps=comps, first_kw=first_kw, defaults=defaults, shape=shape, share=which == 'shared', wrap=wrap)
 
 
-def _make_leaf_fn(shape, defaults, tag='leaf', model=False):
+# the lifted function went through a functools.wraps decorator (it carries __wrapped__) and its OWN signature differs from that of the function it wraps:
+# 'inject' = the decorator supplies the leading argument of the inner function; 'rename' = the inner function calls its first parameter by another name (and declares a / b in the other order)
+_WRAPS = [None] * 6 + ['inject', 'rename']
+
+
+def _make_leaf_fn(shape, defaults, tag='leaf', model=False, wrap=None):
     """a pure leaf function of the given shape (all of them come out of this ONE factory); the declared defaults are fresh objects for every function made.
-    model=True: the reference model's own function - for 'partial' a plain closure with the bound value as its default, no functools.partial object"""
+    model=True: the reference model's own function - for 'partial' a plain closure with the bound value as its default, no functools.partial object, never decorated.
+    wrap: the function of this shape is the outer function of a functools.wraps decorator; what it wraps has another signature (the CALLABLE signature is the outer one: python binds the call to it)"""
     da, db = copy.deepcopy(_DEFAULTS[defaults])
+    if model:
+        wrap = None
     if shape == 'partial':
         bound = copy.deepcopy(_PARTIAL_BOUND[defaults])
         if model:
             def f(x, a=da, b=bound):
                 return (tag, x, a, b)
         else:
-            def g(x, a=da, b=db):
-                return (tag, x, a, b)
+            g, inner_sig = _std_fn('x', da, db, tag, wrap)
             f = functools.partial(g, b=bound)
-        sig = 'functools.partial(f(x, a=%r, b=%r), b=%r)' % (da, db, bound)
+        sig = 'functools.partial(%sf(x, a=%r, b=%r)%s, b=%r)' % ('functools.wraps(%s)(' % inner_sig if wrap else '', da, db, ')' if wrap else '', bound)
+        return f, sig
     elif shape == 'std':
-        def f(x, a=da, b=db):
-            return (tag, x, a, b)
+        f, inner_sig = _std_fn('x', da, db, tag, wrap)
         sig = 'f(x, a=%r, b=%r)' % (da, db)
     elif shape == 'y_first':
-        def f(y, a=da, b=db):
-            return (tag, y, a, b)
+        f, inner_sig = _std_fn('y', da, db, tag, wrap)
         sig = 'f(y, a=%r, b=%r)' % (da, db)
     elif shape == 'kwonly':
-        def f(x, *, a=da, b=db):
-            return (tag, x, a, b)
+        if wrap == 'inject':
+            def g(prefix, x, a, b):
+                return (prefix, x, a, b)
+
+            def f(x, *, a=da, b=db):
+                return g(tag, x, a, b)
+            inner_sig = 'g(prefix, x, a, b)'
+        elif wrap == 'rename':
+            def g(item, *, b=db, a=da):
+                return (tag, item, a, b)
+
+            def f(x, *, a=da, b=db):
+                return g(x, b=b, a=a)
+            inner_sig = 'g(item, *, b=%r, a=%r)' % (db, da)
+        else:
+            def f(x, *, a=da, b=db):
+                return (tag, x, a, b)
         sig = 'f(x, *, a=%r, b=%r)' % (da, db)
     elif shape == 'rest':
-        def f(x, *rest):
-            return (tag, x, rest)
+        if wrap == 'inject':
+            def g(prefix, x, rest):
+                return (prefix, x, rest)
+
+            def f(x, *rest):
+                return g(tag, x, rest)
+            inner_sig = 'g(prefix, x, rest)'
+        elif wrap == 'rename':
+            def g(item, *others):
+                return (tag, item, others)
+
+            def f(x, *rest):
+                return g(x, *rest)
+            inner_sig = 'g(item, *others)'
+        else:
+            def f(x, *rest):
+                return (tag, x, rest)
         sig = 'f(x, *rest)'
     elif shape == 'kwargs':
-        def f(x, **kw):
-            return (tag, x, sorted(kw.items()))
+        if wrap == 'inject':
+            def g(prefix, x, **options):
+                return (prefix, x, sorted(options.items()))
+
+            def f(x, **kw):
+                return g(tag, x, **kw)
+            inner_sig = 'g(prefix, x, **options)'
+        elif wrap == 'rename':
+            def g(item, **options):
+                return (tag, item, sorted(options.items()))
+
+            def f(x, **kw):
+                return g(x, **kw)
+            inner_sig = 'g(item, **options)'
+        else:
+            def f(x, **kw):
+                return (tag, x, sorted(kw.items()))
         sig = 'f(x, **kw)'
     else:
-        def f(*a, **kw):
-            return (tag, a, sorted(kw.items()))
+        if wrap == 'inject':
+            def g(prefix, *values, **options):
+                return (prefix, values, sorted(options.items()))
+
+            def f(*a, **kw):
+                return g(tag, *a, **kw)
+            inner_sig = 'g(prefix, *values, **options)'
+        elif wrap == 'rename':
+            def g(item, *values, **options):
+                return (tag, (item,) + values, sorted(options.items()))
+
+            def f(*a, **kw):
+                return g(*a, **kw)
+            inner_sig = 'g(item, *values, **options)'
+        else:
+            def f(*a, **kw):
+                return (tag, a, sorted(kw.items()))
         sig = 'f(*a, **kw)'
+    if wrap:
+        if shape not in ('std', 'y_first'):
+            f = functools.wraps(g)(f)
+        sig = 'functools.wraps(%s)(%s)' % (inner_sig, sig)
     return f, sig
+
+
+def _std_fn(first, da, db, tag, wrap):
+    """f(<first>, a=da, b=db) -> (tag, <first>, a, b), plain or as the outer function of a functools.wraps decorator; returns (f, text of the inner signature or None)"""
+    if wrap == 'inject':
+        def g(prefix, x, a, b):
+            return (prefix, x, a, b)
+        inner_sig = 'g(prefix, x, a, b)'
+    elif wrap == 'rename':
+        def g(item, b=db, a=da):
+            return (tag, item, a, b)
+        inner_sig = 'g(item, b=%r, a=%r)' % (db, da)
+    if first == 'x':
+        if wrap == 'inject':
+            def f(x, a=da, b=db):
+                return g(tag, x, a, b)
+        elif wrap == 'rename':
+            def f(x, a=da, b=db):
+                return g(x, b=b, a=a)
+        else:
+            def f(x, a=da, b=db):
+                return (tag, x, a, b)
+    else:
+        if wrap == 'inject':
+            def f(y, a=da, b=db):
+                return g(tag, y, a, b)
+        elif wrap == 'rename':
+            def f(y, a=da, b=db):
+                return g(y, b=b, a=a)
+        else:
+            def f(y, a=da, b=db):
+                return (tag, y, a, b)
+    if wrap:
+        return functools.wraps(g)(f), inner_sig
+    return f, None
 
 
 def _first_name(shape):
@@ -424,6 +538,13 @@ def _lift_classes(spec, pos, kw):
             if _fits(dv, lens_seen, keys_seen):
                 cls.append('unfilled_container_default_shaped_like_the_data')
                 break
+    if spec.get('wrap') and d >= 1:
+        # the lifted function carries __wrapped__ (functools.wraps) and what it wraps has another signature: a leading argument more, or another name for the first parameter
+        cls.append('fn_carries___wrapped___of_another_signature')
+        if spec['first_kw']:
+            cls.append('fn_carries___wrapped___structure_passed_by_keyword')
+        elif comps:
+            cls.append('fn_carries___wrapped___structure_positional_with_companions')
     if shape == 'partial' and d >= 1:
         cls.append('fn_is_a_partial_with_a_bound_keyword')
         if 'b' not in kw and _fits(_PARTIAL_BOUND[defaults], lens_seen, keys_seen):
@@ -485,7 +606,7 @@ def run_lift(spec):
     shape, defaults = spec.get('shape', 'std'), spec.get('defaults', 'scalars')
     x = build(s, {} if spec.get('share') else None)
     pos, kw, _ = _build_args(s, x, spec['comps'], shape, defaults)
-    leaf_fn, sig = _make_leaf_fn(shape, defaults)
+    leaf_fn, sig = _make_leaf_fn(shape, defaults, wrap=spec.get('wrap'))
     lifted = loop(list, tuple, dict)(leaf_fn)
     what = _describe(sig, _first_name(shape), spec['first_kw'], x, pos, kw)
     if spec['first_kw']:
@@ -517,6 +638,7 @@ def _session_case(draw):
     else:
         shapes = [draw(st.sampled_from(_SHAPES + ['y_first', 'kwonly'])) for _ in range(2)]
     defaults = [draw(st.sampled_from(['scalars', 'scalars', 'containers', 'containers2'])) for _ in range(2)]
+    wraps = [draw(st.sampled_from(_WRAPS)) for _ in range(2)]         # either function may have gone through a functools.wraps decorator (inner function of another signature)
     base = list(draw(st.permutations(list(range(len(pool))))))
     calls = []
     for i in range(draw(st.sampled_from([2, 2, 3, 3, 4]))):
@@ -536,7 +658,7 @@ def _session_case(draw):
             calls[-1]['edit'] = [draw(st.sampled_from(['x', 'x', 'x', 0, 1, 2])), draw(st.integers(0, 7)), draw(st.sampled_from(['E%i' % i, 'E%i' % i, 0, None]))]
             if (scenario == 'free' or i >= 2) and draw(st.booleans()):
                 calls[-1].update({k: copy.deepcopy(v) for k, v in calls[draw(st.integers(0, i - 1))].items() if k != 'edit'})
-    return dict(s=s, share=which == 'shared', pool=pool, shapes=shapes, defaults=defaults, calls=calls, one_decorator=draw(st.sampled_from([True, True, False])))
+    return dict(s=s, share=which == 'shared', pool=pool, shapes=shapes, defaults=defaults, calls=calls, one_decorator=draw(st.sampled_from([True, True, False])), wraps=wraps)
 
 
 def _cells(s, obj):
@@ -562,7 +684,8 @@ def run_session(spec):
     sh0, df0 = spec['shapes'][0], spec['defaults'][0]
     x = build(s, {} if spec['share'] else None)                      # the operand and the companions are built ONCE ...
     _, _, objs = _build_args(s, x, [dict(c, how='pos') for c in pool], sh0, df0)
-    made = [_make_leaf_fn(sh, df, tag='leaf%i' % i) for i, (sh, df) in enumerate(zip(spec['shapes'], spec['defaults']))]
+    wraps = spec.get('wraps', [None, None])
+    made = [_make_leaf_fn(sh, df, tag='leaf%i' % i, wrap=w) for i, (sh, df, w) in enumerate(zip(spec['shapes'], spec['defaults'], wraps))]
     if spec['one_decorator']:
         deco = loop(list, tuple, dict)                               # ... and ONE decorator object lifts both functions
         lifted = [deco(f) for f, _ in made]
@@ -604,7 +727,7 @@ def run_session(spec):
         kw0 = {names[j]: objs0[i] for j, (i, h) in enumerate(zip(c['use'], c['hows'])) if h == 'kw'}
         exp = model_lift(_make_leaf_fn(shape, defaults, tag='leaf%i' % c['fn'], model=True)[0], x0, pos0, kw0)
         check(same_shape(res, exp), '%s = %s, leaf-wise model (on the original content of the arguments) says %s', what, res, exp)
-        one, _ = _lift_classes(dict(s=s, comps=comps, first_kw=c['first_kw'], shape=shape, defaults=defaults, share=spec['share']), pos, kw)
+        one, _ = _lift_classes(dict(s=s, comps=comps, first_kw=c['first_kw'], shape=shape, defaults=defaults, share=spec['share'], wrap=wraps[c['fn']]), pos, kw)
         cls += [l for l in one if not l.startswith(('depth=', 'ncomp=', 'own_')) and ':' not in l and l not in cls]
         fns_used.add(c['fn'])
         if c['first_kw']:
@@ -992,8 +1115,13 @@ def _waiter_case(draw):
     return dict(s=s, order=list(order), again=draw(st.booleans()) and not _has(s, 'coro'))
 
 
-def _run_waiter(s, order, again=False):
+_GATED_TURNS = 2000      # event-loop turns granted to a waiter call whose awaitables complete by a chain of events: a chain of 6 through 5 levels of gather needs fewer than 100
+
+
+def _run_waiter(s, order, again=False, mode='driver'):
     from pyg_base import waiter
+    if mode == 'gated':
+        return _run_waiter_gated(s, order)
 
     async def main():
         loop = asyncio.get_running_loop()
@@ -1046,8 +1174,185 @@ def _run_waiter(s, order, again=False):
     return asyncio.run(main())
 
 
+def _run_waiter_gated(s, order):
+    """the completion order is ENFORCED: awaitable i may only complete once its gate (an asyncio.Event) is open, and the gate of the next awaitable of the order is opened by the
+    completion of the one before it. A 'coro' is a coroutine object waiting for its gate (nothing runs it but waiter); a 'fut' is a future that a helper task of the harness
+    completes once its gate is open. Everything is driven by events, nothing by time: on a waiter that runs all awaitables of the structure concurrently the chain completes within a
+    number of event-loop turns bounded by (awaitables x nesting depth); a waiter that is still pending after _GATED_TURNS turns will never return."""
+    from pyg_base import waiter
+
+    async def main():
+        loop = asyncio.get_running_loop()
+        k = len(order)
+        pos = {i: p for p, i in enumerate(order)}
+        gates = [asyncio.Event() for _ in range(k)]
+        completed, coros, helpers, made, plain = [], [], [], [0], []
+        futs = {}
+
+        def finish(i):
+            completed.append(i)
+            if pos[i] + 1 < k:
+                gates[order[pos[i] + 1]].set()           # my completion lets the next one of the order complete
+
+        async def co(i):
+            await gates[i].wait()
+            finish(i)
+            return ('co', 'val', i)
+
+        async def drive(i, f):
+            await gates[i].wait()
+            f.set_result(('val', i))
+            finish(i)
+
+        def mk(s):
+            t = s[0]
+            if t == 'leaf':
+                return s[1], s[1]
+            if t == 'futref' and plain:
+                i = plain[-1]
+                return futs[i], ('val', i)
+            if t in ('fut', 'coro', 'futref'):
+                i = made[0]
+                made[0] += 1
+                if t == 'coro':
+                    c = co(i)
+                    coros.append(c)
+                    return c, ('co', 'val', i)
+                f = loop.create_future()
+                futs[i] = f
+                plain.append(i)
+                helpers.append(asyncio.ensure_future(drive(i, f)))
+                return f, ('val', i)
+            if t in ('list', 'tuple'):
+                pairs = [mk(x) for x in s[1]]
+                conv = list if t == 'list' else tuple
+                return conv(p[0] for p in pairs), conv(p[1] for p in pairs)
+            pairs = [(key, mk(x)) for key, x in s[1]]
+            d1, d2 = {key: p[0] for key, p in pairs}, {key: p[1] for key, p in pairs}
+            if t == 'Dict':
+                from pyg_base import Dict
+                return Dict(d1), Dict(d2)
+            return d1, d2
+        structure, expected = mk(s)
+        if made[0] != k:
+            raise RuntimeError('harness: %i awaitables made for an order over %i' % (made[0], k))
+        task = asyncio.ensure_future(waiter(structure))
+        if k:
+            gates[order[0]].set()
+        for _ in range(_GATED_TURNS):
+            if task.done():
+                break
+            await asyncio.sleep(0)
+        done = task.done()
+        if not done:
+            task.cancel()
+        for h in helpers:
+            if not h.done():
+                h.cancel()
+        if not done:
+            await asyncio.gather(task, *helpers, return_exceptions=True)
+        for c in coros:
+            c.close()                                    # coroutine objects nobody started
+        if not done:
+            raise Violation('waiter never returned (still pending after %i event-loop turns, nothing left to run) for the structure %s whose awaitables can only complete in the order %s '
+                            '(each is released by the completion of the one before it); completed so far: %s' % (_GATED_TURNS, s, order, completed))
+        if completed != list(order):
+            raise RuntimeError('harness: completion order %s, enforced order %s' % (completed, order)) if len(completed) == k else \
+                Violation('waiter returned %s for %s although only the awaitables %s of %s had completed' % (short(task.result(), 150), s, completed, order))
+        return task.result(), expected, ()
+    return asyncio.run(main())
+
+
+def _aw_sets(s, state=None):
+    """the spec tree annotated with the awaitables below every node: (tag, set of (index, is a coroutine object), annotated children), indices in creation order as in mk()"""
+    state = state if state is not None else dict(n=0, plain=[])
+    t = s[0]
+    if t == 'leaf':
+        return (t, set(), [])
+    if t == 'futref' and state['plain']:
+        return (t, {(state['plain'][-1], False)}, [])
+    if t in ('fut', 'coro', 'futref'):
+        i = state['n']
+        state['n'] += 1
+        if t != 'coro':
+            state['plain'].append(i)
+        return (t, {(i, t == 'coro')}, [])
+    kids = [_aw_sets(x, state) for x in (s[1] if t in ('list', 'tuple') else [v for _, v in s[1]])]
+    return (t, set().union(*[k[1] for k in kids]) if kids else set(), kids)
+
+
+def _waits_for_later_sibling(s, order):
+    """(some awaitable inside an EARLIER sub-container can only complete after a coroutine object that sits in a LATER sibling - a leaf of the same level or inside a later
+    sub-container - has completed, the same with the later sibling itself a sub-container): a waiter that resolves the members of a container one after the other never returns"""
+    pos = {i: p for p, i in enumerate(order)}
+    found = [False, False]
+
+    def walk(node):
+        kids = node[2]
+        for a in range(len(kids)):
+            if kids[a][2] or kids[a][0] not in ('leaf', 'fut', 'coro', 'futref'):
+                for b in range(a + 1, len(kids)):
+                    if any(c and pos[j] < pos[i] for i, _ in kids[a][1] for j, c in kids[b][1]):
+                        found[0] = True
+                        if kids[b][0] not in ('leaf', 'fut', 'coro', 'futref'):
+                            found[1] = True
+        for kid in kids:
+            walk(kid)
+    walk(_aw_sets(s))
+    return found
+
+
+def _w_depth(s):
+    if s[0] in ('leaf', 'fut', 'coro', 'futref'):
+        return 0
+    return 1 + max([_w_depth(k) for k in (s[1] if s[0] in ('list', 'tuple') else [v for _, v in s[1]])], default=0)
+
+
+_g_plain = st.integers(0, 5).map(lambda v: ['leaf', v])
+_g_leaf = st.one_of(_g_plain, st.just(['coro']), st.just(['coro']), st.just(['fut']), st.just(['futref']))
+
+
+@st.composite
+def _g_container(draw, kids):
+    """a list / tuple / dict / Dict holding `kids` in a drawn order"""
+    kids = list(draw(st.permutations(kids)))
+    t = draw(st.sampled_from(['list', 'list', 'tuple', 'dict', 'Dict']))
+    if t in ('list', 'tuple'):
+        return [t, kids]
+    return [t, [[key, v] for key, v in zip(draw(st.permutations(_KEYS)), kids)]]
+
+
+@st.composite
+def _gated_case(draw):
+    """a nested structure (depth 2-4) with 2-6 awaitables, by construction at least two coroutine objects in different sub-containers / on different levels:
+    top = container(A, B, 0-1 further leaves), A = container(F, 0-1 further leaves), F = coroutine or container(coroutine, 0-1 further leaves), B = coroutine or container(coroutine, 0-1 further leaves);
+    in a quarter of the cases the whole sits one level further down, next to one more leaf. The order is any permutation, and it is enforced by events"""
+    extra = lambda: draw(st.lists(_g_leaf, max_size=1))
+    F = ['coro'] if draw(st.booleans()) else draw(_g_container([['coro']] + extra()))
+    A = draw(_g_container([F] + extra()))
+    B = ['coro'] if draw(st.booleans()) else draw(_g_container([['coro']] + extra()))
+    s = draw(_g_container([A, B] + extra()))
+    if draw(st.sampled_from([True, False, False, False])):
+        s = draw(_g_container([s, draw(_g_leaf if _count_aw(s) < 6 else _g_plain)]))
+    return dict(s=s, order=list(draw(st.permutations(list(range(_count_aw(s)))))), mode='gated')
+
+
 def run_waiter(spec):
     s, order, again = spec['s'], spec['order'], bool(spec.get('again'))
+    mode = spec.get('mode', 'driver')
+    if mode == 'gated':
+        res, exp, second = call('waiter(%s) with the completion order %s enforced by events' % (short(s, 150), order), _run_waiter, s, order, False, mode)
+        check(same_shape(res, exp), 'waiter(%s) with the enforced completion order %s returned %s, expected %s', s, order, res, exp)
+        k = len(order)
+        cls = ['enforced_order', 'awaitables=%i' % k, 'depth=%i' % _w_depth(s), 'in_creation_order' if order == sorted(order) else 'permuted']
+        later, later_container = _waits_for_later_sibling(s, order)
+        if later:
+            cls.append('earlier_sub_container_can_only_complete_after_a_later_sibling')
+            if later_container:
+                cls.append('earlier_sub_container_can_only_complete_after_a_later_sub_container')
+        if _future_reused(s):
+            cls.append('one_future_object_at_several_places')
+        return dict(nt=later, cls=cls)
     res, exp, second = call('waiter(%s) with completion order %s' % (short(s, 150), order), _run_waiter, s, order, again)
     check(same_shape(res, exp), 'waiter(%s) with completion order %s returned %s, expected %s', s, order, res, exp)
     for r in second:
@@ -1073,12 +1378,25 @@ _W_FIXED = [
 ]
 
 
+# nested structures whose awaitables (mostly coroutine objects) complete in an order ENFORCED by events: every order, earlier sub-containers waiting for later siblings among them
+_W_GATED = [
+    ['list', [['list', [['coro']]], ['coro']]],
+    ['list', [['tuple', [['coro'], ['leaf', 'x']]], ['list', [['coro'], ['leaf', None]]], ['coro']]],
+    ['Dict', [['a', ['dict', [['a', ['coro']], ['b', ['leaf', 7]]]]], ['b', ['tuple', [['coro'], ['list', [['coro']]]]]]]],
+    ['dict', [['a', ['list', [['coro'], ['dict', [['c', ['coro']]]]]]], ['b', ['tuple', [['fut'], ['leaf', 's']]]], ['c', ['coro']]]],
+    ['list', [['list', [['list', [['coro'], ['list', [['coro']]]]], ['fut']]], ['tuple', [['coro']]], ['futref'], ['coro']]],
+]
+
+
 def enum_waiter(tier):
     cases = []
     for s in _W_FIXED:
         k = _count_aw(s)
         for perm in itertools.permutations(range(k)):
             cases.append(dict(s=s, order=list(perm)))
+    for s in _W_GATED:
+        for perm in itertools.permutations(range(_count_aw(s))):
+            cases.append(dict(s=s, order=list(perm), mode='gated'))
 
     def chunker(i, nchunks):
         for c in cases[i::nchunks]:
@@ -1092,7 +1410,7 @@ SUBS = [
              'dict over other keys), each positional or by keyword, first argument positional or by keyword; the lifted function declares a and b with string defaults or with tuple / list / dict defaults as long as (keyed like) parts of the data, which a leaf must receive whole when the caller leaves them out; oracle: recursive leaf-map model, exact container types. '
              'Also: dict keys that are strings, small integers, integers beyond 2**53 or integers next to a float; same-shape companions whose numeric keys come as float / numpy.int64, or that ARE the operand object; one companion object passed for a and b; '
              'one container object at two places of the structure; strings of length 2-3 as scalar companions; lifted functions of the shapes f(x, a=, b=), f(y, ...), f(x, *, a=, b=), f(x, *rest), f(x, **kw), f(*a, **kw) from one factory, '
-             'or functools.partial(f, b=string / list / tuple as long as parts of the data) whose bound value every leaf must receive whole; the declared default of a / b passed explicitly (then matched like any companion); falsy scalar companions (0, "", False, 0.0), falsy elements in flat companions, dict keys "" and 0. '
+             'or functools.partial(f, b=string / list / tuple as long as parts of the data) whose bound value every leaf must receive whole; in a quarter of the cases the function is the outer function of a functools.wraps decorator (it carries __wrapped__) whose inner function has ANOTHER signature - a leading argument that the decorator supplies, or another name for the first parameter and a / b declared in the other order - and is then called with the structure by keyword more often; the declared default of a / b passed explicitly (then matched like any companion); falsy scalar companions (0, "", False, 0.0), falsy elements in flat companions, dict keys "" and 0. '
              'non-trivial = depth >= 2 with a same-shape positional companion, or mixed container types',
         floor=0.2, class_floors={'unfilled_container_default_shaped_like_the_data': 0.08, 'companion_of_length_0_or_1_next_to_longer_sequences': 0.03, 'depth>=2_positional_same_shape': 0.08, 'first_by_keyword': 0.05, 'container_of_40+': 0.03, 'integer_dict_keys_with_same_shape_companion': 0.03,
                                  'string_companion_as_long_as_a_sequence': 0.01, 'companion_is_the_operand_object': 0.01, 'one_companion_object_passed_twice': 0.02, 'one_container_object_at_two_places': 0.035,
@@ -1100,16 +1418,19 @@ SUBS = [
                                  'fn_with_varargs_or_keyword_only_and_companions': 0.05,
                                  # classes 24, 26, 29 of the brief
                                  'fn_is_a_partial_with_a_bound_keyword': 0.024, 'partial_binds_a_container_shaped_like_the_data': 0.007, 'own_default_passed_explicitly': 0.05,
-                                 'own_container_default_passed_explicitly_and_matched': 0.008, 'falsy_companion_or_companion_element': 0.04, 'falsy_element_of_a_matched_flat_companion': 0.006, 'falsy_dict_key': 0.035}),
+                                 'own_container_default_passed_explicitly_and_matched': 0.008, 'falsy_companion_or_companion_element': 0.04, 'falsy_element_of_a_matched_flat_companion': 0.006, 'falsy_dict_key': 0.035,
+                                 # class 16 of the brief, functions that carry __wrapped__
+                                 'fn_carries___wrapped___of_another_signature': 0.045, 'fn_carries___wrapped___structure_passed_by_keyword': 0.017, 'fn_carries___wrapped___structure_positional_with_companions': 0.018}),
     Sub('lift_session', lambda tier: _session_case(), run_session, quick=1200, thorough=8000,
         rule='the operand structure and a pool of 1-3 companions are built ONCE, two leaf functions (made by one factory, any two shapes) are lifted - by ONE loop(list, tuple, dict) decorator object in 2 of 3 cases - and 2-4 calls are made on '
-             'these same objects, their companion lists prefixes / extensions / permutations of one another, positional or by keyword; before a call the harness may write one leaf cell of the operand (or of a list / dict companion) in place, in half of these cases repeating an earlier call exactly; '
+             'these same objects, their companion lists prefixes / extensions / permutations of one another, positional or by keyword; either function may be the outer function of a functools.wraps decorator whose inner function has another signature; before a call the harness may write one leaf cell of the operand (or of a list / dict companion) in place, in half of these cases repeating an earlier call exactly; '
              'oracle: every call judged by the single-call leaf-map model on the original content of the arguments plus the cells the harness wrote. '
              'non-trivial = some call takes a container companion',
         floor=0.2, class_floors={'one_decorator_object_two_functions': 0.13, 'one_decorator_object_two_functions_first_argument_by_two_names': 0.045, 'then_prefix': 0.1, 'then_extension': 0.12, 'then_permutation': 0.03, 'then_repeat': 0.16,
                                  'one_container_object_at_two_places': 0.03, 'companion_is_the_operand_object': 0.012, 'fn_with_varargs_or_keyword_only_and_companions': 0.09, 'unfilled_container_default_shaped_like_the_data': 0.06,
                                  # classes 24, 28, 29 of the brief
-                                 'cell_written_in_place_between_calls': 0.07, 'cell_written_in_place_then_an_earlier_call_repeated': 0.025, 'fn_is_a_partial_with_a_bound_keyword': 0.025, 'falsy_companion_or_companion_element': 0.045, 'falsy_dict_key': 0.045}),
+                                 'cell_written_in_place_between_calls': 0.07, 'cell_written_in_place_then_an_earlier_call_repeated': 0.025, 'fn_is_a_partial_with_a_bound_keyword': 0.025, 'falsy_companion_or_companion_element': 0.045, 'falsy_dict_key': 0.045,
+                                 'fn_carries___wrapped___of_another_signature': 0.08, 'fn_carries___wrapped___structure_passed_by_keyword': 0.045}),
     Sub('libfuncs', lambda tier: _lib_case(), run_lib, quick=3000, thorough=18000,
         rule='lower/upper/strip/proper/capitalize/f12/as_float/replace/split on nested structures with string, number and None leaves; oracle: result equals the structure '
              'with the function applied to every leaf on its own, and (where python has the method) the python string method at string leaves; replace / split also with `old` / `sep` given as a two-character string or a list / tuple of 1-3 characters, which is matched element by element where a list / tuple of that length sits '
@@ -1128,6 +1449,12 @@ SUBS = [
         rule='nested structures holding up to 6 futures/coroutines mixed with plain values, a future possibly placed several times; a driver resolves the futures in a generated permutation; in half of the coroutine-free cases waiter is called '
              'a second time on the same (now completed) structure; oracle: same structure and container types with every awaitable replaced by its result. non-trivial = >= 2 awaitables resolved out of creation order',
         floor=0.05, class_floors={'one_future_object_at_several_places': 0.05, 'second_call_on_the_same_completed_futures': 0.065}),      # the spec space is small: in the thorough tier most cases repeat earlier ones, so the distinct share is low
+    Sub('waiter_enforced', lambda tier: _gated_case(), run_waiter, quick=300, thorough=2500,
+        rule='nested structures (depth 2-4) with 2-6 awaitables, at least two of them coroutine objects in different sub-containers / on different levels, whose completion order (any permutation) is ENFORCED: each awaitable waits for '
+             'an event that the completion of its predecessor in the order sets (coroutine objects wait themselves, futures are completed by a helper task waiting for the event); oracle: waiter returns - within a bounded number of '
+             'event-loop turns, nothing depends on time - the same structure with every awaitable replaced by its result. non-trivial = an awaitable inside an earlier sub-container can only complete after a coroutine in a later sibling has completed',
+        floor=0.1, class_floors={'earlier_sub_container_can_only_complete_after_a_later_sibling': 0.13, 'earlier_sub_container_can_only_complete_after_a_later_sub_container': 0.08}),
     EnumSub('waiter_all_orders', enum_waiter, run_waiter, chunks=16,
-            rule='8 fixed structures with 3-6 awaitables (one of them placing its futures at several places) x every completion order (exhaustive over the permutations)'),
+            rule='8 fixed structures with 3-6 awaitables (one of them placing its futures at several places) x every completion order (exhaustive over the permutations), the awaitables resolved by a driver; '
+                 '5 nested structures with 2-5 awaitables (coroutine objects in different sub-containers and levels) x every completion order, the order enforced by events'),
 ]
